@@ -388,6 +388,8 @@ fn run(scn: &Scn) {
     let after_await = Arc::new(AtomicBool::new(false));
     let late_activity = Arc::new(AtomicU32::new(0));
     let recs: Arc<std::sync::Mutex<Vec<OpRec>>> = Arc::new(std::sync::Mutex::new(vec![]));
+    // submit calls invoked and not yet returned, per pool (plain atomics: no scheduling points)
+    let inflight: Arc<Vec<AtomicU32>> = Arc::new((0..scn.permanent.len() + scn.late_pools.len()).map(|_| AtomicU32::new(0)).collect());
     // event stamp at which a shutdown call of pool p (or the group) returned
     let n_pools = scn.permanent.len() + scn.late_pools.len();
     let pool_down: Arc<Vec<AtomicU64>> = Arc::new((0..n_pools).map(|_| AtomicU64::new(u64::MAX)).collect());
@@ -412,8 +414,8 @@ fn run(scn: &Scn) {
     for ops in &scn.submitters {
         let t: u64 = ops.iter().map(|o| o.gap_ms + o.body_ms).sum();
         horizon_ms = horizon_ms.max(t);
-        let (ops, pools, started, finished, after_await, late, recs) =
-            (ops.clone(), pools.clone(), started.clone(), finished.clone(), after_await.clone(), late_activity.clone(), recs.clone());
+        let (ops, pools, started, finished, after_await, late, recs, inflight) =
+            (ops.clone(), pools.clone(), started.clone(), finished.clone(), after_await.clone(), late_activity.clone(), recs.clone(), inflight.clone());
         let first = base;
         base += ops.len();
         hs.push(shuttle::thread::spawn(move || {
@@ -449,7 +451,9 @@ fn run(scn: &Scn) {
                     }
                 };
                 let invoked = simrt::event("submit_invoked", task as u64, op.or_spawn as u64);
+                inflight[op.pool].fetch_add(1, SeqCst);
                 let r = if op.or_spawn { pool.submit_or_spawn(body) } else { pool.submit(body) };
+                inflight[op.pool].fetch_sub(1, SeqCst);
                 let returned = simrt::event("submit_returned", task as u64, r.is_ok() as u64);
                 if matches!(r, Err(Error::Io(_))) {
                     simrt::probe("c29_spawn_failed");
@@ -593,6 +597,27 @@ fn run(scn: &Scn) {
     // legal and is released only by shutdown.
     let max_linger = scn.linger_ms.iter().copied().chain(scn.late_pools.iter().map(|l| l.2)).max().unwrap_or(0);
     simrt::thread::sleep(Duration::from_millis(horizon_ms + max_linger + 2_000));
+    // A `submit` may block only while every permanent worker of its pool is busy. Under the fair
+    // configuration (DES: nothing runnable is left behind when time advances) and without failing
+    // thread creation, wait long enough for all work ever submitted to drain (every body's sleep,
+    // ten seconds per crash - ten times the respawn delay -, one linger) and look again: a submitter still inside `submit`
+    // on a live pool that has permanent workers means those workers sit idle and are not counted
+    // as available (e.g. a worker respawned after a crash that never re-enters the accounting).
+    let fair = scn.clock == "des" && scn.strategy == "random" && scn.spurious_wakeup_pm == 0 && scn.spawn_fail_pm == 0;
+    if fair && inflight.iter().any(|c| c.load(SeqCst) > 0) {
+        let all_bodies: u64 = scn.submitters.iter().flatten().map(|o| o.body_ms).sum();
+        let crashes = scn.submitters.iter().flatten().filter(|o| o.crash != 0).count() as u64;
+        simrt::thread::sleep(Duration::from_millis(all_bodies + 10_000 * (crashes + 1) + max_linger + 2_000));
+        for p in 0..inflight.len() {
+            let permanent = if p < scn.permanent.len() { scn.permanent[p] } else { scn.late_pools[p - scn.permanent.len()].1 };
+            let live = pools[p].lock().unwrap().as_ref().map(|pool| !pool.is_shutting_down()).unwrap_or(false);
+            if inflight[p].load(SeqCst) > 0 && permanent > 0 && live {
+                viol("submit-blocked-although-workers-idle", format!("{} submit call(s) on pool {p} ({permanent} permanent workers, not shut down) still blocked after all submitted work had time to finish", inflight[p].load(SeqCst)));
+            } else if inflight[p].load(SeqCst) > 0 {
+                simrt::probe("c29_submit_legitimately_blocked");
+            }
+        }
+    }
     let blocked_before = recs.lock().unwrap().len();
     group_down_invoked.fetch_min(simrt::stamp(), SeqCst);
     FINAL_SHUTDOWN_AT.with(|f| f.set(Some(simrt::sched::decisions_so_far())));
